@@ -73,16 +73,20 @@ def endItemsAt (c : Ctx) (es : List ElemRt) (i : Nat) : List Item :=
   | none => []
   | some e => endItems c i e
 
-/-- the trace an event must produce on module state `m`: per element in stack order its
-    `event_start` call and sends, then (if the message got there) its `incoming` call and sends;
-    the handler call and its direct sends; the sends of the tasks that were due, in deadline
-    order; per element in reverse order its `event_end` call and sends -/
-def traceShape (c : Ctx) (m : ModRt) (kind : Kind) : List Item :=
+/-- the trace a bracket must produce on module state `m` when the tasks `woken` are due: per
+    element in stack order its `event_start` call and what it does there, then (if the message
+    got there) its `incoming` call and what it does there; the handler call and its direct sends /
+    shutdown requests; the sends of the tasks that were due, in deadline order; per element in
+    reverse order its `event_end` call and what it does there -/
+def traceShape (c : Ctx) (m : ModRt) (kind : Kind) (woken : Sleepers) : List Item :=
   let acts := m.elems.map (·.spec.act)
   (List.range m.elems.length).flatMap (upItemsAt c m.elems kind.msg?)
-    ++ handlerItems c m.handler kind (msgAt acts kind.msg? m.elems.length)
-    ++ (m.sleepers.takeWhile (fun s => s.1 ≤ c.now)).map (fun s => s.2.toItem c)
+    ++ handlerItems c m kind (msgAt acts kind.msg? m.elems.length)
+    ++ woken.map (fun s => s.2.toItem c)
     ++ (List.range m.elems.length).reverse.flatMap (endItemsAt c m.elems)
+
+/-- the tasks that are due at `c.now` -/
+def dueTasks (c : Ctx) (m : ModRt) : Sleepers := m.sleepers.takeWhile (fun s => s.1 ≤ c.now)
 
 /-! ### executable acceptor for implementation logs -/
 
@@ -122,5 +126,64 @@ def rejectsAt (stacks : List (List (Nat → Act))) (log : List Entry) : Option N
 
 def brackets (stacks : List (List (Nat → Act))) (log : List Entry) : List (Nat × Nat × Kind) :=
   (parseLog stacks (log.length + 1) log []).2
+
+/-! ### lifecycle acceptor: no hook for a module that is shut down -/
+
+/-- what the log has told about a module so far -/
+structure Life where
+  down : Option (Option Nat) := none   -- a shutdown is in effect (with the restart time)
+  chain : Option (Nat × Nat) := none   -- its last bracket was start stage `k` of a restart at time `t`
+
+/-- the next bracket of a module with `stages` start stages: its time, kind and the shutdown
+    requests made inside it (absolute restart times).  `none`: the bracket must not exist.
+
+    * an active module may draw any bracket;
+    * a module that is shut down draws no bracket, except: the tear-down bracket (`at_sim_end` is
+      called on every module), start stage 0 at exactly the restart time (the restart, which makes
+      it active again), and the further stages `k+1` of a restart right after stage `k` at the same
+      time (all stages of a restart run inside one kernel event, a shutdown requested in one of
+      them takes effect after the last);
+    * a module without start stages restarts invisibly: from the restart time on it may draw
+      brackets again. -/
+def Life.next (stages : Nat) (st : Life) (t : Nat) (kind : Kind) (reqs : List (Option Nat)) :
+    Option Life :=
+  let continues (k : Nat) : Bool :=
+    match st.chain with
+    | some (t', k') => t' == t && k == k' + 1
+    | none => false
+  let r : Option (Option (Option Nat) × Option (Nat × Nat)) :=
+    match st.down with
+    | none =>
+      some (none, match kind with
+        | .simStart k => if continues k then some (t, k) else none
+        | _ => none)
+    | some r =>
+      match kind with
+      | .simEnd => some (st.down, none)
+      | .simStart k =>
+        if k == 0 && r == some t then some (none, some (t, 0))
+        else if continues k then some (st.down, some (t, k))
+        else none
+      | _ =>
+        match r with
+        | some tr => if stages == 0 && tr ≤ t then some (none, none) else none
+        | none => none
+  match r with
+  | none => none
+  | some (down, chain) =>
+    some { down := match reqs.getLast? with
+             | some x => if kind == .simEnd then down else some x
+             | none => down
+           chain := chain }
+
+/-- walk over the brackets `(module, time, kind, shutdown requests inside)`; `some i`: bracket `i`
+    belongs to a module that is shut down -/
+def lifeRejectsAt (stages : List Nat) :
+    List (Nat × Nat × Kind × List (Option Nat)) → List Life → Nat → Option Nat
+  | [], _, _ => none
+  | b :: rest, lives, i =>
+    match Life.next (stages[b.1]?.getD 0) (lives[b.1]?.getD {}) b.2.1 b.2.2.1 b.2.2.2 with
+    | none => some i
+    | some l => lifeRejectsAt stages rest (lives.set b.1 l) (i + 1)
 
 end Proc
